@@ -491,7 +491,7 @@ def run_property(pid, tier, seed, jobs=None):
         v = mod.check_case(rec["case"])
         n_replayed += 1
         if e["status"] == "known":
-            if v.status == "known" and v.finding == e["id"]:
+            if v.status == "known" and e["id"] in (v.finding or "").split("+"):
                 print("KNOWN-FINDING: property=%s %s %s" % (pid, e["id"], e["title"]))
             elif v.status == "fail":
                 violations.append((v.bucket, "pinned case of %s now fails differently: %s" % (e["id"], v.what),
